@@ -1,10 +1,10 @@
 from props import cfg
 
 CFG = cfg('C11', refine=['Refine_armor'], extract='Ex_C11', driver='c11',
-          rule='texts = fixed adversarial list + every text over {-, SP, LF, CR, a, TAB} up to length 5 (quick) / 7 (thorough) + random texts built from '
+          rule='texts = fixed adversarial list + every text over {-, SP, LF, CR, a, TAB} up to length 5 (quick) / 6 (thorough) + random texts built from '
                '"-", "- ", "From ", armor-looking lines, Hash: lines, blanks, empty lines, LF / CRLF / CR endings, with / without final newline, non-ASCII, non-BMP, '
                '10 kB lines: dash_escape / dash_unescape / signed octets (through PGPSignature.hashdata) against model and RFC 7.1 transcription; full flow '
-               '(every text up to length 3 / 4 + 250 / 4000 random) x 6 hash algorithms x 1-3 signers x ed25519 / p256 / rsa2048 / dsa1024 (thorough: 10 keys): '
+               '(every text up to length 3 / 4 + 250 / 2500 random) x 6 hash algorithms x 1-3 signers x ed25519 / p256 / rsa2048 / dsa1024 (thorough: 10 keys): '
                'str(message) vs model render, Hash: header, read back (LF and CRLF transport) vs model read, PGPKey.verify per signer, independent verification '
                '(own packet parser + hashlib over the MODEL\'s RFC 7.1 octets + cryptography) of every signature, independently signed RFC 7.1 messages verified by PGPy; '
                'failures are classified by the model\'s decidable defect predicates. distinct = distinct canonical (suite, input)',
